@@ -272,19 +272,9 @@ pub fn number_to_fixed(
 }
 
 /// Format a number as a string in JavaScript format
-/// (handles Infinity, -Infinity, NaN properly)
+/// (Number::toString: shortest round-trip digits, exponent form outside 1e-6..1e21)
 fn format_number_js(n: f64) -> String {
-    if n.is_nan() {
-        "NaN".to_string()
-    } else if n.is_infinite() {
-        if n.is_sign_positive() {
-            "Infinity".to_string()
-        } else {
-            "-Infinity".to_string()
-        }
-    } else {
-        format!("{}", n)
-    }
+    crate::value::number_to_string(n)
 }
 
 // Number.prototype.toString
